@@ -26,9 +26,11 @@ func engErr(format string, args ...interface{}) {
 }
 
 type Item struct {
-	Text string
-	Def  string   // symbol declared/defined ("" for assert)
-	Syms []string // symbols mentioned
+	Text  string
+	Def   string   // symbol declared/defined ("" for assert)
+	Syms  []string // symbols mentioned
+	Guard string   // for `(assert (=> guard fact))`: the guard text (its symbols alone do not pull the item into a cone)
+	Trig  []string // symbols of the fact part
 }
 
 type Obl struct {
@@ -115,9 +117,11 @@ type Frame struct {
 	mapRange map[ssa.Value]*mapRangeInfo
 	curSt    *State
 	curBlock *ssa.BasicBlock
+	headerFlag map[*ssa.BasicBlock]Term
 }
 
 type retInfo struct {
+	block *ssa.BasicBlock
 	reach Term
 	st    *State
 	res   []Term
@@ -152,6 +156,7 @@ type FuncEnc struct {
 	consts    map[string]bool
 	defAt     map[string]int
 	usedIn    map[string][]int
+	trigIn    map[string][]int
 	hub       map[string]bool
 	indexedN  int
 }
@@ -206,7 +211,7 @@ func (fe *FuncEnc) assume(path, fact Term) {
 	if f.S == "true" {
 		return
 	}
-	fe.addItem("(assert "+f.S+")", "")
+	fe.items = append(fe.items, Item{Text: "(assert " + f.S + ")", Guard: path.S})
 }
 
 // comp returns the current term of a heap component in st, declaring its initial symbol on demand.
@@ -255,6 +260,56 @@ func (fe *FuncEnc) setComp(st *State, name string, t Term) {
 // obligations
 
 func (fe *FuncEnc) emit(kind, label string, path, goal Term, clause string, pos token.Pos) {
+	if kind == "post" || kind == "inv.step" || kind == "inv.entry" || kind == "pre" || kind == "lemma" {
+		if parts := splitGoal(goal.S, 16); len(parts) > 1 {
+			for i, p := range parts {
+				fe.emit1(kind, fmt.Sprintf("%s.%d", label, i+1), path, Term{p, SBool}, clause, pos)
+			}
+			return
+		}
+	}
+	fe.emit1(kind, label, path, goal, clause, pos)
+}
+
+// splitGoal distributes a goal over its top-level conjunctions (also under implications), so that every conjunct becomes
+// its own small obligation.
+func splitGoal(s string, max int) []string {
+	s = strings.TrimSpace(s)
+	if !strings.HasPrefix(s, "(") {
+		return []string{s}
+	}
+	parts := splitTop(s[1 : len(s)-1])
+	if len(parts) < 2 {
+		return []string{s}
+	}
+	switch parts[0] {
+	case "and":
+		var out []string
+		for _, p := range parts[1:] {
+			out = append(out, splitGoal(p, max)...)
+		}
+		if len(out) > max {
+			return []string{s}
+		}
+		return out
+	case "=>":
+		if len(parts) != 3 {
+			return []string{s}
+		}
+		cs := splitGoal(parts[2], max)
+		if len(cs) == 1 {
+			return []string{s}
+		}
+		var out []string
+		for _, c := range cs {
+			out = append(out, "(=> "+parts[1]+" "+c+")")
+		}
+		return out
+	}
+	return []string{s}
+}
+
+func (fe *FuncEnc) emit1(kind, label string, path, goal Term, clause string, pos token.Pos) {
 	full := fe.cur.prefix + label
 	// de-duplicate labels within the function
 	key := kind + ":" + full
@@ -278,7 +333,20 @@ func (fe *FuncEnc) emit(kind, label string, path, goal Term, clause string, pos 
 		Clause: clause, SrcPos: fe.eng.relPos(pos), fe: fe}
 	fe.obls = append(fe.obls, o)
 	// assert-then-assume
-	fe.addItem("(assert "+g.S+")", "")
+	fe.items = append(fe.items, Item{Text: "(assert " + g.S + ")", Guard: path.S})
+}
+
+// cover: a vacuity guard — the path must not be refutable from the assumed contracts, invariants and stubs.
+func (fe *FuncEnc) cover(label string, path Term, pos token.Pos) {
+	if path.S == "true" {
+		return
+	}
+	fe.cur.labelCnt["cover:"+label]++
+	if n := fe.cur.labelCnt["cover:"+label]; n > 1 {
+		label = fmt.Sprintf("%s#%d", label, n)
+	}
+	fe.obls = append(fe.obls, &Obl{Name: fe.name + "/cover:" + label, Func: fe.name, Kind: "cover", Label: label, Pos: len(fe.items), Goal: path,
+		Clause: "vacuity guard: this return is reachable under the assumptions", SrcPos: fe.eng.relPos(pos), fe: fe, ExpectSat: true})
 }
 
 // srcLabel gives a stable label from the source text around pos.
